@@ -515,6 +515,9 @@ def unwrap(v, t):
         if v.t.nm != t.nm:
             raise TypeError("record mismatch %s vs %s" % (v.t, t))
         return t.dt.mk(*[unwrap(v.fields[fn], ft) for fn, ft in t.fields.items()])
+    if isinstance(t, TList) and type(v).__name__ == "VEmptyList":
+        dflt = z3.Const("dflt_" + "".join(c if c.isalnum() else "_" for c in t.elem.name), t.elem.sort())
+        return t.dt.mk(z3.K(z3.IntSort(), dflt), z3.IntVal(0))
     if isinstance(t, TList) and isinstance(v, VSeq):
         if v.et != t.elem:
             raise TypeError("list elem mismatch %s vs %s" % (v.et, t.elem))
